@@ -617,3 +617,21 @@ class RealFloat___ge__(Contract):
 
     def raises(self, other):
         return {}
+
+
+# ---------------------------------------------------------------------------
+# hash (H3), under the assumed stdlib model: hash(int i) == hash(Fraction(i)) == H(i), H: Q -> Z
+
+class RealFloat___hash__(Contract):
+    target = 'fpy2.number.number.reals:RealFloat.__hash__'
+    params = {'self': 'RealFloat'}
+    returns = 'int'
+    properties = ['C05']
+    note = 'assumed: hash(int i) == hash(Fraction(i)) == H(i) for one function H on the rationals (CPython numeric hash)'
+
+    def post(self, result):
+        # the hash is a function of the denoted value only: equal values (of any numeric type) hash equally
+        return {'hash_of_value': result == hashq(t_val_q(trip(self)))}
+
+    def raises(self):
+        return {}
